@@ -2,7 +2,7 @@
 import itertools
 from ..facts import AnalysisBroken, strip, expr_str
 from ..absint import State
-from ..models import fs, ev
+from ..models import fs, ev, targets
 from ..rulelib import *
 from .. import startpath as SP
 from .. import summaries as S
@@ -210,8 +210,9 @@ def check_streams_composition(ctx, prog):
             st.mem[("f", ("f", O, "input"), "size")] = I.pos() if data else fs(0)
             st.mem[("f", O, "fork")] = fs(0)
             st.mem[("f", O, "deadline")] = fs(0)
-            st.mem[p["argv"]] = fs(("addr", ("i", AV, 0)))
-            st.mem[("i", AV, 0)] = fs("PTR")
+            if "argv" in p:
+                st.mem[p["argv"]] = fs(("addr", ("i", AV, 0)))
+                st.mem[("i", AV, 0)] = fs("PTR")
             st.mon["case"] = (sh, combo, data)
             states.append(st)
     res = I.run(F, states)
@@ -278,6 +279,14 @@ def check_parse_options(ctx, prog, accepted_redirect):
         rej.mon["redirect_rejected"] = True
         return [(rej, fs(prog.const("REPROC_EINVAL"))), (st, fs(0))]
     I = new_interp(prog, overrides={"parse_redirect": o_pr})
+    narrowed = []
+
+    def cast_hook(I_, fn, node, ft, tt, v, st):
+        wide = any(w in ft for w in ("long", "size_t", "int64", "ssize_t"))
+        small = tt in ("int", "unsigned int", "short", "unsigned short", "char", "unsigned char", "signed char", "_Bool")
+        if wide and small and any(a in ("POS", "NEG") for a in v):
+            narrowed.append((site_of(fn, node), ft, tt))
+    I.hooks_cast.append(cast_hook)
     p = {x["name"]: ("v", F.gdid(x["did"])) for x in F.params}
     O = ("g", "options_under_test")
     AV = ("g", "argv_under_test")
@@ -291,7 +300,9 @@ def check_parse_options(ctx, prog, accepted_redirect):
         st.mem[("f", ("f", ("f", O, "redirect"), "in"), "type")] = fs(PIPE if intype == "PIPE" else PARENT)
         st.mem[("f", O, "fork")] = fs(fork)
         st.mem[("f", O, "deadline")] = I.pos() if deadline else fs(0)
-        if argv == "null":
+        if "argv" not in p:
+            pass
+        elif argv == "null":
             st.mem[p["argv"]] = fs("NULL")
         else:
             st.mem[p["argv"]] = fs(("addr", ("i", AV, 0)))
@@ -308,7 +319,9 @@ def check_parse_options(ctx, prog, accepted_redirect):
     for st0 in states:
         case = st0.mon["case"]
         data, size, intype, fork, argv, deadline = case
-        reject = (data and intype != "PIPE") or (size and not data) or (fork and argv != "null") or (not fork and argv != "ok")
+        reject = (data and intype != "PIPE") or (size and not data)
+        if "argv" in p:
+            reject = reject or (fork and argv != "null") or (not fork and argv != "ok")
         outs = [(s, rv) for s, rv in by.get(case, []) if not s.mon.get("redirect_rejected")]
         accepts = [(s, rv) for s, rv in outs if rv == fs(0)]
         rejects = [(s, rv) for s, rv in outs if rv == fs(EINVAL)]
@@ -325,7 +338,63 @@ def check_parse_options(ctx, prog, accepted_redirect):
                "everything else is accepted and a zero deadline becomes 'none'", ok,
                {"documented": "reject" if reject else "accept", "code": sorted({show(rv) for s, rv in outs})}, nontrivial=True)
     ctx.floor("C13.A2o", 96)
+    ctx.ob("C13.A2n", "parse_options: width of the values tested", "no 64-bit option value (the input size) is narrowed to 32 bits before it is "
+           "tested - a size that is a multiple of 2^32 would otherwise pass for zero", not narrowed, {"narrowing_casts": sorted(set(narrowed))[:4]},
+           nontrivial=True)
+    if "argv" not in p:
+        check_forkargv_in_start(ctx, prog)
     return I
+
+
+def check_forkargv_in_start(ctx, prog):
+    """parse_options does not see argv: the fork/argv consistency clause must then be decided in reproc_start itself, before
+    anything is created.  reproc_start is run for the six (fork, argv) cases with a slim stand-in for parse_options (accepts,
+    all three streams piped); in the four disagreeing cases no effect event may occur and the return value must be the
+    invalid-argument error."""
+    F = prog.fn("reproc_start")
+    PIPE = prog.const("REPROC_REDIRECT_PIPE")
+
+    def o_po(I, fn, n, args, st):
+        ev(I, "parse_options", fn, n, args, st)
+        s = st.copy()
+        s.mon["parsed"] = True
+        for t in targets(I, args[0]):
+            for stream in ("in", "out", "err"):
+                s.mem[("f", ("f", ("f", t, "redirect"), stream), "type")] = fs(PIPE)
+            s.mem[("f", ("f", t, "input"), "data")] = fs("NULL")
+            s.mem[("f", ("f", t, "input"), "size")] = fs(0)
+            s.mem[("f", t, "deadline")] = fs(prog.const("REPROC_INFINITE"))
+        return [(s, fs(0))]
+    ov = dict(S.HEAP_HELPERS)
+    ov["process_start"] = S.o_process_start
+    ov["parse_options"] = o_po
+    I = new_interp(prog, overrides=ov)
+    pr = {x["name"]: ("v", F.gdid(x["did"])) for x in F.params}
+    AV = ("g", "argv_under_test")
+    EINVAL = prog.const("REPROC_EINVAL")
+    n = 0
+    for fork, argv in itertools.product((0, 1), ("null", "empty", "ok")):
+        st = State()
+        S.not_started_object(prog, F, st)
+        st.mem[("f", pr["options"], "fork")] = fs(fork)
+        if argv == "null":
+            st.mem[pr["argv"]] = fs("NULL")
+        else:
+            st.mem[pr["argv"]] = fs(("addr", ("i", AV, 0)))
+            st.mem[("i", AV, 0)] = fs("NULL") if argv == "empty" else fs("PTR")
+        res = I.run(F, [st])
+        disagree = (fork and argv != "null") or (not fork and argv != "ok")
+        if not disagree:
+            continue
+        effects = sorted({(e[0], site_of(e[1], e[2])) for e in res.events if e[0] in R_OS})
+        rets = {show(rv) for s_, rv in res.exits}
+        n += 1
+        ctx.ob("C13.A2f", "reproc_start [fork=%d argv=%s]" % (fork, argv), "fork mode with an argument vector, or normal mode without a "
+               "program, is rejected with the invalid-argument error before any pipe, file, allocation or process is created "
+               "(the validator itself does not see argv in this tree, so start has to do it)",
+               not effects and all(rv == fs(EINVAL) for s_, rv in res.exits) and res.exits,
+               {"effects_before_rejection": effects[:6], "returns": sorted(rets)[:4]}, nontrivial=True)
+    ctx.stats("E-ABS", I.stats)
 
 
 def check_purity(ctx, prog):
